@@ -866,7 +866,28 @@ class Evaluator:
         if self._is_pure(name):
             # the same pure predicate asked about the same arguments is ONE atom, wherever it is asked
             return T("call", name, args, None)
+        if m in ("any", "all") and "Iterator" in name and len(args) == 2 and isinstance(args[1], tuple) and args[1] and args[1][0] == "closure" \
+                and not any(args[1][3]) and self._closure_is_pure(args[1][1]):
+            # xs.iter().any(|x| pure(x, captures)) is a function of xs and the captures
+            return T("call", name, args, None)
         return T("call", name, args, blk)
+
+    def _closure_is_pure(self, path):
+        facts = self.body.facts
+        if facts is None or path not in facts.bodies:
+            return False
+        cache = getattr(facts, "_pure_closures", None)
+        if cache is None:
+            cache = {}
+            facts._pure_closures = cache
+        if path not in cache:
+            calls, writes = _scan_calls_writes(facts.bodies[path])
+            ok = not writes
+            for c in calls:
+                if not (_PURE_STD.search(c) or self._is_pure(c)):
+                    ok = False
+            cache[path] = ok
+        return cache[path]
 
     def _is_pure(self, name):
         if name.startswith("core::str::<impl str>::") or name.startswith("core::char::methods::<impl char>::") or name.startswith("std::char::methods::<impl char>::"):
